@@ -59,9 +59,9 @@ theorem chain_wfam (hent : f0.entry = none) :
       rw [hcs] at h32
       rw [h32, Nat.add_zero] at this
       rw [Nat.mul_left_comm, this]
-    obtain ⟨d', h1, hw, hC0, hwf⟩ := h.dir.core.file_write hent h.wf o bs hne
+    obtain ⟨d', h1, hw, hC0, hwf⟩ := h.dir.core.file_write h.wf o bs hne
       (by rw [chainRoom_geom h.geom]; exact hroom) (by rw [hcs, ← hT]; exact hfit)
-    rw [hcs] at h1
+    rw [hcs, stamped_none f0 _ hent] at h1
     rw [chainSrc_geom h.geom] at hw
     have hC : ChainDir d' f0 c0 chain :=
       ⟨hC0.failAt, hC0.geo, hC0.first, hC0.link, hC0.inTab, hC0.nosize, hC0.noacc, h.dir.clean, hC0.cs32, hC0.u32⟩
@@ -86,7 +86,8 @@ theorem chain_wfam (hent : f0.entry = none) :
 /-- … and its stream operations -/
 theorem chain_wops (hent : f0.entry = none) :
     WOps (ChainInv fs0 f0 c0 chain) (chainS f0 chain fs0.clusterSize) (chainS f0 chain fs0.clusterSize)
-      (chain.length * (fs0.clusterSize / 32)) (chainSrc fs0 chain) (chainRoom fs0 chain) (fun _ => False) := by
+      (chain.length * (fs0.clusterSize / 32)) (chainSrc fs0 chain) (chainRoom fs0 chain) (fun _ => False)
+      (fun im im' => im' = im) := by
   have hT : ∀ d, ChainInv fs0 f0 c0 chain d →
       32 * (chain.length * (fs0.clusterSize / 32)) = chain.length * d.fs.clusterSize := by
     intro d h
@@ -119,7 +120,7 @@ theorem chain_wops (hent : f0.entry = none) :
     exact this
   · obtain ⟨d1, h1, hs1⟩ := (hD d h).drop d (SameVol.refl d) o ho
     exact ⟨d1, h1, VolStep.of_sameVol hs1, chainInv_ok.vol d d1 h hs1 (run_clock _ _ _ _ h1), fun hk => by rw [hs1.fs]; exact hk,
-      fun q _ _ => by rw [hs1.img]⟩
+      fun q _ _ => by rw [hs1.img], hs1.img⟩
 
 end chain
 
